@@ -22,7 +22,7 @@ func Exec(s core.Schedule) *core.Outcome {
 		l, _ := zap.NewDevelopment()
 		zap.ReplaceGlobals(l)
 	}
-	r := &run{sc: sc, cfg: cfg, out: out, models: map[dragonboat.ShardKey]*shardModel{}, lastL: map[string]uint64{}, seenL: map[string]map[uint64]bool{},
+	r := &run{sc: sc, cfg: cfg, out: out, models: map[dragonboat.ShardKey]*shardModel{}, lastL: map[string]uint64{}, seenL: map[string]map[uint64]bool{}, onceChecked: map[uint64]uint64{}, onceLast: map[uint64]uint64{},
 		blocked: map[string]bool{}, clientDelay: map[string]time.Duration{}, backups: map[int]*backupRec{}, restoreWins: map[string][][2]uint64{}, leaseTasks: map[string]*leaseTask{}, leaderTables: map[string]uint64{}, deleted: map[string]bool{}, start: time.Now()}
 	r.kc = &fsmsim.Cfg{Keys: cfg.Keys}
 	w := NewWorld(WorldCfg{Seed: cfg.Seed, Leaders: cfg.Leaders, Followers: cfg.Followers, SnapshotEntries: cfg.SnapshotEntries, CompactionOverhead: cfg.CompactionOverhead,
@@ -30,6 +30,11 @@ func Exec(s core.Schedule) *core.Outcome {
 		LogTimeoutMs: cfg.LogTimeoutMs, RecoveryTypes: cfg.RecoveryTypes, CutPermille: cfg.CutPermille})
 	r.w = w
 	w.u.BusyPermille, w.u.DropPermille, w.u.TimeoutLostPermille, w.u.TimeoutAppliedPermille = cfg.BusyPermille, cfg.DropPermille, cfg.TOLostPermille, cfg.TOAppliedPermille
+	if os.Getenv("VERIF_LOG") == "2" || os.Getenv("VERIF_LOG") == "4" {
+		w.u.OnEvent = func(e string) {
+			fmt.Fprintf(os.Stderr, "EVT %s %s draws=%d\n", time.Now().Format("04:05.000"), e, core.RuntimeDraws())
+		}
+	}
 	w.u.FaultMinShard = 10000 // metadata shards are not subjected to proposal faults
 	w.u.ReadBusyPermille = cfg.ReadBusyPermille
 	w.noReplication = cfg.NoReplication
@@ -324,6 +329,11 @@ func (r *run) finish() {
 		}
 	}
 	out.Probes["net-dials"] += int64(r.w.net.Dials)
+	for _, n := range r.w.nodes() {
+		if n.abandoned > 0 {
+			out.Probes["replication-close-never-returned"] += int64(n.abandoned)
+		}
+	}
 	switch r.cfg.Prop {
 	case "C05":
 		out.NonTrivial = out.Probes["follower-advanced"] >= 2 && len(out.Faults) > 0
